@@ -281,6 +281,7 @@ type thread struct {
 	sharedRoots  []int // stack of roots of the open shared extents
 	frames       []int // number of entries each open extent pushed
 	pendingWrite bool
+	waiting      func() bool // non-nil while blocked in zsync: becomes enabled when it returns true
 }
 
 // Config selects what the controller does at instrumented statements.
@@ -309,6 +310,7 @@ type Controller struct {
 	WriteEvents int64
 	CapHit      bool
 	Diverged    string
+	Deadlock    string
 	reach       map[uintptr]int
 	lastHash    []uint64
 	fin         chan struct{}
@@ -370,13 +372,17 @@ func Run(bodies []func(), cfg Config) *Controller {
 
 func (c *Controller) Panics() []string { return c.panics }
 
+func (t *thread) runnable() bool {
+	return !t.done && (t.waiting == nil || t.waiting())
+}
+
 func (c *Controller) enabled(running *thread) []int {
 	var e []int
-	if running != nil && !running.done {
+	if running != nil && running.runnable() {
 		e = append(e, running.id)
 	}
 	for _, t := range c.threads {
-		if !t.done && (running == nil || t.id != running.id) {
+		if t.runnable() && (running == nil || t.id != running.id) {
 			e = append(e, t.id)
 		}
 	}
@@ -427,6 +433,11 @@ func (c *Controller) finish(t *thread) {
 	}
 	en := c.enabled(nil)
 	if len(en) == 0 {
+		for _, o := range c.threads {
+			if !o.done {
+				c.Deadlock = fmt.Sprintf("thread %d finished and every remaining thread is blocked", t.id)
+			}
+		}
 		close(c.fin)
 		return
 	}
@@ -564,4 +575,54 @@ func L() {
 	n := t.frames[len(t.frames)-1]
 	t.frames = t.frames[:len(t.frames)-1]
 	t.sharedRoots = t.sharedRoots[:len(t.sharedRoots)-n]
+}
+
+// ---------------------------------------------------------------------------- hooks for zsync
+
+// Controlled reports whether the calling code runs under the cooperative scheduler.
+func Controlled() bool {
+	c := loadCtl()
+	return c != nil && c.cur != nil && !c.cfg.Trace
+}
+
+// SyncPoint is an unconditional scheduling point (lock, unlock, once, wait).
+func SyncPoint() {
+	c := loadCtl()
+	if c == nil || c.cur == nil || c.cfg.Trace {
+		return
+	}
+	t := c.cur
+	next := c.choose(t, 0, nil, false)
+	if next != t.id {
+		nt := c.threads[next]
+		c.cur = nt
+		nt.baton <- struct{}{}
+		<-t.baton
+		c.cur = t
+	}
+}
+
+// Block parks the running thread until ready() holds; another enabled thread must run. If there
+// is none the execution is a deadlock: it is recorded and the run ends (blocked goroutines are
+// abandoned; the worker process exits after reporting).
+func Block(ready func() bool) {
+	c := loadCtl()
+	if c == nil || c.cur == nil {
+		return
+	}
+	t := c.cur
+	t.waiting = ready
+	en := c.enabled(nil)
+	if len(en) == 0 {
+		c.Deadlock = fmt.Sprintf("thread %d blocks and no thread is enabled", t.id)
+		close(c.fin)
+		select {} // never resumes
+	}
+	next := c.choose(t, 0, nil, false)
+	nt := c.threads[next]
+	c.cur = nt
+	nt.baton <- struct{}{}
+	<-t.baton
+	t.waiting = nil
+	c.cur = t
 }
